@@ -224,6 +224,24 @@ def cli_written(chk, qmluic):
                 text = open(g, "rb").read().decode("utf-8", "replace") if os.path.exists(g) else "<missing/>"
                 found.append(("written by the tool for %s in the invocation %s %s" % (n, " ".join(opts), " ".join(order)), stat[n], text, n[:-4]))
             shutil.rmtree(d, ignore_errors=True)
+    # an output file that is already there -- empty, cut short, longer, or different in one byte -- is replaced by the whole document
+    for n, t in stat.items():
+        d = tempfile.mkdtemp(prefix="c09p-", dir=chk.work)
+        open(os.path.join(d, n), "w").write(t)
+        g = os.path.join(d, n[:-4].lower() + ".ui")
+        p = subprocess.run([qmluic, "generate-ui", "--foreign-types", QT5_METATYPES, n], cwd=d, capture_output=True, text=True, timeout=60)
+        if p.returncode != 0 or not os.path.exists(g):
+            raise ToolError("reference run for %s failed: %s" % (n, p.stderr[-300:]))
+        ref = open(g, "rb").read()
+        pres = {"empty": b"", "first 1 byte": ref[:1], "first 200 bytes": ref[:200], "all but the last byte": ref[:-1], "with trailing bytes": ref + b"<!-- old -->\n",
+                "twice": ref + ref, "one byte changed": ref[:len(ref) // 2] + b"#" + ref[len(ref) // 2 + 1:], "identical": ref}
+        for what, data in pres.items():
+            open(g, "wb").write(data)
+            p = subprocess.run([qmluic, "generate-ui", "--foreign-types", QT5_METATYPES, n], cwd=d, capture_output=True, text=True, timeout=60)
+            chk.count({"cli_pre": n, "state": what}, nontrivial=True)
+            text = open(g, "rb").read().decode("utf-8", "replace") if os.path.exists(g) else "<missing/>"
+            found.append(("left by the tool for %s (exit %d) over an output file that held: %s" % (n, p.returncode, what), t, text, n[:-4]))
+        shutil.rmtree(d, ignore_errors=True)
     return found
 
 
